@@ -12,6 +12,7 @@ import numpy as np
 from quansino.mc.contexts import Context
 from quansino.mc.criteria import BaseCriteria
 from quansino.mc.driver import SingleDriver
+from quansino.moves.composite import CompositeMove
 from quansino.moves.core import BaseMove
 from quansino.registry import get_typed_class
 from quansino.utils.moves import MoveStorage
@@ -382,6 +383,32 @@ class MonteCarlo(SingleDriver, Generic[MoveType, CriteriaType]):
         self.acceptance_rate = np.mean(
             [1 if is_accepted else 0 for _, is_accepted in self.move_history]
         )
+
+    def notify_moves(self, method: str, *args: Any) -> None:
+        """
+        Call `method(*args)` exactly once on every distinct elementary move of the move
+        table, descending into composite moves. Used to forward the `on_atoms_changed`
+        and `on_cell_changed` notifications.
+
+        Parameters
+        ----------
+        method : str
+            The name of the notification method to call.
+        *args : Any
+            The arguments to pass to the notification method.
+        """
+        notified: set[int] = set()
+
+        def notify(move) -> None:
+            if isinstance(move, CompositeMove):
+                for sub_move in move.moves:
+                    notify(sub_move)
+            elif id(move) not in notified:
+                notified.add(id(move))
+                getattr(move, method)(*args)
+
+        for move_storage in self.moves.values():
+            notify(move_storage.move)
 
     def save_state(self) -> None:
         """
